@@ -409,6 +409,9 @@ def tol_doub(case, v_si, scale=None):
     return rel * abs(v_si if scale is None else scale)
 
 
+IGNORE_KNOWN = set(k for k in os.environ.get("VERIF_C05_IGNORE_KNOWN", "").split(",") if k)
+
+
 # ----------------------------------------------------------------------------------------------------------------
 class C05(Check):
     ID = "C05"
@@ -567,11 +570,17 @@ class C05(Check):
             return self.rst_error(case, r["rst_error"], S, n)
         return self.pick(self.oracle_A(case, r, S, wells, sols, extras, runs, n, ctx))
 
+    def known_key(self, case, viol):
+        # VERIF_C05_IGNORE_KNOWN=key1,key2: treat those recorded findings as absent (used to verify a proposed fix: the
+        # key must then never be seen and its regression input must pass strictly)
+        k = viol.get("key")
+        return (k + "#strict") if k in IGNORE_KNOWN else k
+
     def pick(self, gen):
         """first violation whose key is not a recorded finding, else the first recorded one (so that a recorded finding
         does not hide what lies behind it in the same case)"""
         from vlib.runner import load_known
-        known = {e["key"] for e in load_known(self.ID) if e.get("status") == "known"}
+        known = {e["key"] for e in load_known(self.ID) if e.get("status") == "known"} - IGNORE_KNOWN
         first = None
         if os.environ.get("C05_HISTO"):
             gen = list(gen)         # triage aid: walk everything so that the difference histogram is complete
